@@ -678,6 +678,29 @@ func (g *G) genInt(t *Type, d int) expr {
 		g.feat("conv-int")
 		return expr{tf("%s(%s)", t.Tri(), x.E), false}
 	case 8:
+		// f(args).field on a struct-returning pure function
+		var sfs []*Fn
+		for _, f := range g.funcs {
+			if f.Pure && f.Recv == nil && f != g.cur && len(f.Results) == 1 && f.Results[0].K == KStruct {
+				for _, fd := range f.Results[0].Fields {
+					if sameType(fd.T, t) {
+						sfs = append(sfs, f)
+						break
+					}
+				}
+			}
+		}
+		if len(sfs) > 0 && g.coin("callField") {
+			f := sfs[g.n(0, len(sfs)-1, "sf")]
+			var fds []Field
+			for _, fd := range f.Results[0].Fields {
+				if sameType(fd.T, t) {
+					fds = append(fds, fd)
+				}
+			}
+			g.feat("call-result-field")
+			return expr{sel(tf("%s(%s)", f.Name, g.callArgs(f, d-1)), fds[g.n(0, len(fds)-1, "sfField")].Name), false}
+		}
 		if fs := g.pureFuncs(t); len(fs) > 0 {
 			f := fs[g.n(0, len(fs)-1, "pf")]
 			g.feat("call")
@@ -739,6 +762,30 @@ func (g *G) strIndex(d int) (Tri, bool) {
 
 // elemRead: element of an array / slice / map with element type t.
 func (g *G) elemRead(t *Type, d int) (Tri, bool) {
+	// field of a non-addressable struct value: m[k].f on a map of structs
+	ms := g.varsOf(func(v *Var) bool {
+		if v.T.K != KMap || v.T.Elem.K != KStruct {
+			return false
+		}
+		for _, f := range v.T.Elem.Fields {
+			if sameType(f.T, t) {
+				return true
+			}
+		}
+		return false
+	})
+	if len(ms) > 0 && g.coin("mapStructField") {
+		v := ms[g.n(0, len(ms)-1, "msOf")]
+		var fs []Field
+		for _, f := range v.T.Elem.Fields {
+			if sameType(f.T, t) {
+				fs = append(fs, f)
+			}
+		}
+		f := fs[g.n(0, len(fs)-1, "msField")]
+		g.feat("map-struct-field")
+		return sel(tf("%s[%s]", v.Name, g.gen(v.T.Key, d-1).E), f.Name), true
+	}
 	vs := g.varsOf(func(v *Var) bool {
 		return (v.T.K == KArray || v.T.K == KSlice || v.T.K == KMap) && sameType(v.T.Elem, t)
 	})
